@@ -6,8 +6,8 @@ LEVEL = 'proof'
 TLVS = 'v2::model::TypeLengthValues<>'
 
 
-def run(ctx, R):
-    R.explanation = ('C11.S: the loop-free Iterator::next is summarised; its four guarded outcomes (value and cursor update) must equal the '
+def run(ctx, R, parts=('S', 'R', 'B')):
+    R.explanation = R.explanation or ('C11.S: the loop-free Iterator::next is summarised; its four guarded outcomes (value and cursor update) must equal the '
                      'reference step over the partition {o>=n; n-o<3; n-o<3+l; else}. C11.R: error outcomes park the cursor at n which forces '
                      'None on every later call; the Ok outcome advances by 3+l>=3 and stays <= n (ranking: at most floor(n/3) items plus one '
                      'error; consecutive extents tile the section). C11.B: both constructors start at offset 0 over the given section; the '
@@ -46,7 +46,8 @@ def run(ctx, R):
         return ('opaque', 'no &mut self state')
     # the 'end' row must leave the state unchanged: either the symbolic self or an identical expansion
     rows[0]['state'] = None
-    check_rows(R, 'C11.S', p, outs, rows, state_of=state_of)
+    if 'S' in parts:
+        check_rows(R, 'C11.S', p, outs, rows, state_of=state_of)
     for out in outs:
         if solver.sat(list(out['pc']) + [T.cmp('Ge', o, n)]):
             st = state_of(out)
@@ -72,6 +73,8 @@ def run(ctx, R):
             R.inst('C11.R', 'item-stays-inside-section', solver.entails(out['pc'], T.cmp('Le', o2, n)),
                    expected="offset' <= len(bytes)", found=T.short(o2), entry=p)
     R.floor('step outcomes', len(outs), 4)
+    if 'B' not in parts:
+        return
     # C11.B constructors
     pf = ctx.method(TLVS, 'from', 'std::convert::From<&[u8]>')
     ev, fouts = ctx.entry(pf)
